@@ -113,7 +113,7 @@ const TEXT_BITS: &[&str] = &[
     "=", "/", "!", "a b",
 ];
 const ATTR_VAL_BITS: &[&str] = &[
-    "v", "", " ", ">", "/>", "a>b", "<", "&amp;", "&quot;", "=", "x y", "é", "?", "--", "]]>", "/",
+    "v", "", " ", ">", "/>", "a>b", "</a>", "<a>", "<", "&amp;", "&quot;", "=", "x y", "é", "?", "--", "]]>", "/",
 ];
 const COMMENT_BITS: &[&str] = &["c", " ", ">", "-", "->", "- ", "<a>", "</a>", "]]>", "?>", "é", "<!", "x-y"];
 const CDATA_BITS: &[&str] = &["d", " ", "]", "]]", "]>", ">", "<", "&", "</a>", "<a>", "é", "--", "?>", "] ]>"];
